@@ -10,7 +10,7 @@ import os
 import signal
 import sys
 
-from vlib import graphs, hrun, fakeos, symx
+from vlib import graphs, hrun, fakeos, symx, crash
 from vlib.runner import Space, Canary, rewrite, setattr_patch
 
 ID = "C16"
@@ -53,6 +53,29 @@ def site_of(frame):
     return names[0] if names else "?"
 
 
+_HEADERS = {}
+
+
+def except_header_lines(code):
+    """Lines that only test an exception against a class (`except X as e:` headers).  CPython runs Python-level signal
+    handlers at calls, loop back-edges and function entries only; a header line that is reached by an exception in flight
+    contains none of these, so no handler can run there - it is not a point of the run."""
+    got = _HEADERS.get(code)
+    if got is None:
+        import dis
+        per = {}
+        for ins in dis.get_instructions(code):
+            ln = ins.positions.lineno if ins.positions else None
+            if ln is not None:
+                per.setdefault(ln, []).append(ins.opname)
+        got = frozenset(ln for ln, ops in per.items()
+                        if "CHECK_EXC_MATCH" in ops and not any(o.startswith(("CALL", "JUMP_BACKWARD", "RESUME", "SEND", "FOR_ITER", "BEFORE_WITH",
+                                                                              "WITH_EXCEPT_START", "IMPORT", "BINARY", "COMPARE", "CONTAINS",
+                                                                              "GET_ITER", "FORMAT", "STORE_ATTR", "STORE_SUBSCR", "DELETE")) for o in ops))
+        _HEADERS[code] = got
+    return got
+
+
 class Injector:
     """Counts injection points; at point k calls the registered handler."""
 
@@ -64,6 +87,7 @@ class Injector:
         self.fired = None     # (where, t)
         self.kernel = None
         self.site = "blocked-read"
+        self.env = crash.EnvLoops()
 
     def _armed(self):
         if not self.armed:
@@ -93,6 +117,10 @@ class Injector:
 
     def local(self, frame, event, arg):
         if event == "line":
+            if self.env.skip(frame):
+                return self.local
+            if sys.exception() is not None and frame.f_lineno in except_header_lines(frame.f_code):
+                return self.local
             if self.k is None or self.n == self.k:
                 code = frame.f_code
                 where = "%s:%s:%d" % (code.co_filename[len(SRC):], code.co_qualname, frame.f_lineno)
@@ -104,6 +132,7 @@ class Injector:
 
     def glob(self, frame, event, arg):
         if frame.f_code.co_filename.startswith(SRC):
+            self.env.entered(frame)
             return self.local
         return None
 
@@ -114,10 +143,11 @@ class Injector:
 class FixedSched(fakeos.Sched):
     """Statuses decided up front (bad bits), completion order by choose."""
 
-    def __init__(self, g, specs, bad, calls):
+    def __init__(self, g, specs, bad, calls, replay=None):
         self.g, self.specs, self.bad, self.calls = g, specs, bad, calls
         self.k = 0
         self.rc = {}
+        self.replay = replay        # completion order of the fault-free run of this path (the run with the fault follows it)
 
     def on_spawn(self, kernel, proc):
         hrun.snapshot_on_spawn(kernel, proc)
@@ -128,6 +158,8 @@ class FixedSched(fakeos.Sched):
             return running[0]
         self.k += 1
         name = "x%d" % self.k
+        if self.replay is not None and self.k <= len(self.replay) and self.replay[self.k - 1] < len(running):
+            return running[self.replay[self.k - 1]]
         v = self.g.choose(name, len(running))
         self.calls.append((name, len(running), v))
         return running[v]
@@ -138,11 +170,11 @@ class FixedSched(fakeos.Sched):
         return fakeos.StatusExited(rc)
 
 
-def run_once(g, specs, root, jobs, bad, inj, calls, stop_early=False):
+def run_once(g, specs, root, jobs, bad, inj, calls, stop_early=False, replay=None):
     import conductor.cli.run as cli_run
     proj = hrun.Project()
     proj.write_tasks(specs)
-    sched = FixedSched(g, specs, bad, calls)
+    sched = FixedSched(g, specs, bad, calls, replay=replay)
     kernel = fakeos.Kernel(sched, clock=fakeos.Clock())
     kernel.on_block = inj.on_block
     inj.kernel = kernel
@@ -172,13 +204,14 @@ def make(n, kinds, jobs_hi, sigterm_bit=True, orders="rev"):
         # 1. the same path without a fault: number of injection points L (cached per scenario)
         L = None
         if g.symbolic:
-            key = tuple(g.outcomes())
+            key = (tuple(g.outcomes()), tuple(D))
             for calls, l in _LCACHE.get(key, []):
                 tail = g.decisions[g.pos:g.pos + len(calls)]
                 if len(tail) == len(calls) and all(d.i < len(d.alts) and d.outcome == c[2] for d, c in zip(tail, calls)):
                     for name, cnt, _ in calls:
                         g.choose(name, cnt)
                     L = l
+                    order = [c[2] for c in calls]
                     break
         if L is None:
             calls = []
@@ -186,6 +219,7 @@ def make(n, kinds, jobs_hi, sigterm_bit=True, orders="rev"):
             r0 = run_once(g, specs, root, jobs, bad, base, calls)
             r0.proj.cleanup()
             L = base.n
+            order = [c[2] for c in calls]
             if g.symbolic:
                 if len(_LCACHE) > 64:
                     _LCACHE.clear()
@@ -194,20 +228,24 @@ def make(n, kinds, jobs_hi, sigterm_bit=True, orders="rev"):
                 g.require(False, "run:crash:" + r0.status, "fault-free run died: %r %s" % (r0.exc, D))
         g.note("L", L)
         # k in two levels so that one shard is a block of 64 consecutive points
-        kb = g.choose("kb", (max(L, 1) + 63) // 64)
+        # one extra block beyond the measured count: if point numbers ever differ between two runs of the same scenario
+        # the tail of the run is still visited, and a run that has more than L + 63 points is reported as inconclusive
+        nblocks = (max(L, 1) + 63) // 64 + 1
+        kb = g.choose("kb", nblocks)
         g.shard_point()
         k = kb * 64 + g.choose("ko", 64)
-        if k >= L:
-            return {"nontrivial": False, "sample": None}
         frac = getattr(g, "preset", {}).get("kfrac") if g.symbolic else None
         if frac is not None:
             k = (k + (int(L * frac) // 64) * 64) % max(L, 1)      # canaries start in the middle of the run
         # 2. the run with the signal at point k
         inj = Injector(k=k, sig=sig)
-        res = run_once(g, specs, root, jobs, bad, inj, [])
+        res = run_once(g, specs, root, jobs, bad, inj, [], replay=order)
         try:
             if inj.fired is None:
                 return {"nontrivial": False, "sample": None}
+            if k >= L + 32:
+                raise symx.Inconclusive("point numbering is not stable: the fault-free run had %d points, an identical run reached point %d at %s; order=%s events=%s" % (
+                    L, k, inj.fired[0], order, [e[:4] for e in res.kernel.events if e[0] in ("spawn", "exit", "reap")]))
             where, t_inj, running_at = inj.fired
             func = inj.site if where != "blocked-read" else "blocked-read"
             kern = res.kernel
